@@ -411,6 +411,69 @@ def r3_4(ctx):
     ctx.count('fiber_stack_walks', len(loops))
 
 
+def r3_5(ctx):
+    """atom bytes and the regexp nodes they came from stay aligned: after an atom is
+    trimmed by `shift` positions, the parallel array of RE_NODE pointers (whose
+    forward/backward code is where verification starts) is read at `+ shift`"""
+    prog = ctx.prog
+    n_sites = 0
+    for f in prog.fns():
+        if f.file != 'libyara/atoms.c' and not ctx.fixture:
+            continue
+        trims = []
+        for n in f.all_nodes():
+            if n['k'] == 'bin' and n['op'] == '=':
+                r = cu.strip_casts(f, f.kid(n, 1))
+                l = cu.strip_casts(f, f.kid(n, 0))
+                if r is not None and r['k'] == 'call' and r.get('callee') == '_yr_atoms_trim' and \
+                        l is not None and l['k'] == 'ref':
+                    trims.append((n, l['name']))
+        k = 0
+        for t, S in trims:
+            blk = None
+            for a in f.ancestors(t):
+                if a['k'] == 'compound':
+                    blk = a
+                    break
+            if blk is None:
+                continue
+            for x in f.walk(blk):
+                if x['i'] <= t['i'] or x['k'] != 'sub' or x.get('t', '').replace(' ', '') != 'RE_NODE*':
+                    continue
+                src = canon(f, f.kid(x, 0))
+                # how the element is consumed
+                par = f.parent(x)
+                addr = False
+                while par is not None and (par['k'] == 'cast' or (par['k'] == 'un' and par['op'] == '&')):
+                    addr = addr or par['k'] == 'un'
+                    par = f.parent(par)
+                use = None
+                if par is not None and par['k'] == 'bin' and par['op'] == '=' and \
+                        (cu.strip_casts(f, f.kid(par, 1)) is x or f.is_ancestor(f.kid(par, 1), x)):
+                    dst = cu.strip_casts(f, f.kid(par, 0))
+                    if dst is not None and dst['k'] == 'sub' and canon(f, f.kid(dst, 0)) != src:
+                        use = 'copied into %s' % canon(f, f.kid(dst, 0))
+                elif par is not None and par['k'] == 'call' and par.get('callee') == 'memcpy' and addr:
+                    a = f.call_args(par)
+                    if len(a) > 1 and f.is_ancestor(a[1], x):
+                        use = 'copied by memcpy'
+                elif par is not None and par['k'] == 'member' and par['fld'] in ('forward_code_ref', 'backward_code_ref'):
+                    use = 'code reference taken'
+                if use is None:
+                    continue
+                n_sites += 1
+                idx = canon(f, f.kid(x, 1))
+                import re as _re
+                ok = S in _re.findall(r'[A-Za-z_]\w*', idx)
+                ctx.ob('R3.5', '%s:trim%d:%s[%s]:shifted' % (f.name, k, src, idx), ok, f.loc(x),
+                       '%s[%s] %s: indexed relative to the trim shift' % (src, idx, use) if ok else
+                       '%s[%s] is %s after the atom was trimmed by `%s` positions, but the index ignores '
+                       '`%s`: the atom is paired with the code of a node %s positions to its left and every '
+                       'hit is verified out of alignment' % (src, idx, use, S, S, S))
+            k += 1
+    ctx.count('trimmed_atom_node_reads', n_sites)
+
+
 FIXTURES = {
     'R3.1': {'src': 'C03/bytecode.c', 'run': r3_1, 'expect': 'yr_re_exec:RE_OPCODE_MASKED_LITERAL:advance',
              'expect_ok': 'yr_re_exec:RE_OPCODE_LITERAL:advance'},
@@ -430,3 +493,5 @@ def run(ctx):
     ctx.floor('R3.3', 22)
     r3_4(ctx)
     ctx.floor('R3.4', 3)
+    r3_5(ctx)
+    ctx.floor('R3.5', 3)
